@@ -1,27 +1,28 @@
 #!/bin/bash
 # usage: tools/exp_try.sh <patch.diff|none> <tier> <ID>...
-# Like try_seeded.sh but WITHOUT touching /repo: uses a scratch worktree /tmp/exp/repo and a scratch copy of the harness
-# (/tmp/exp/harness, path-depending on the scratch worktree). For experiments while long runs use /repo. Not used by any registered check.
+# Like try_seeded.sh but WITHOUT touching /repo: uses a scratch worktree $EXP/repo and a scratch copy of the harness
+# ($EXP/harness, path-depending on the scratch worktree). For experiments while long runs use /repo. Not used by any registered check.
 PATCH="$1"; TIER="$2"; shift 2
 set -u
-mkdir -p /tmp/exp/root
-if [ ! -d /tmp/exp/repo ]; then git -C /repo worktree add -q --detach /tmp/exp/repo HEAD && cp /repo/Cargo.lock /tmp/exp/repo/; fi
-git -C /tmp/exp/repo checkout -q -- . ; git -C /tmp/exp/repo checkout -q --detach "$(git -C /repo rev-parse HEAD)"
-mkdir -p /tmp/exp/harness
-rsync -a --delete --exclude target /verif/harness/ /tmp/exp/harness/
-sed -i 's#path = "/repo"#path = "/tmp/exp/repo"#' /tmp/exp/harness/Cargo.toml
-cp /verif/known_findings.json /tmp/exp/root/; rm -rf /tmp/exp/root/regress /tmp/exp/root/replays; cp -r /verif/regress /tmp/exp/root/
-if [ "$PATCH" != "none" ]; then git -C /tmp/exp/repo apply "$PATCH" || { echo "patch does not apply"; exit 2; }; fi
-(cd /tmp/exp/harness && CARGO_NET_OFFLINE=true cargo build --release --offline >/tmp/exp/build.log 2>&1) || { echo "build failed"; tail -5 /tmp/exp/build.log; git -C /tmp/exp/repo checkout -q -- .; exit 2; }
+EXP="${EXP:-/tmp/exp}"; HSRC="${HARNESS_SRC:-/verif/harness}"
+mkdir -p $EXP/root
+if [ ! -d $EXP/repo ]; then git -C /repo worktree add -q --detach $EXP/repo HEAD && cp /repo/Cargo.lock $EXP/repo/; fi
+git -C $EXP/repo checkout -q -- . ; git -C $EXP/repo checkout -q --detach "$(git -C /repo rev-parse HEAD)"
+mkdir -p $EXP/harness
+rsync -a --delete --exclude target "$HSRC/" $EXP/harness/
+sed -i "s#path = \"/repo\"#path = \"$EXP/repo\"#" $EXP/harness/Cargo.toml
+cp /verif/known_findings.json $EXP/root/; rm -rf $EXP/root/regress $EXP/root/replays; cp -r /verif/regress $EXP/root/
+if [ "$PATCH" != "none" ]; then git -C $EXP/repo apply "$PATCH" || { echo "patch does not apply"; exit 2; }; fi
+(cd $EXP/harness && CARGO_NET_OFFLINE=true cargo build --release --offline >$EXP/build.log 2>&1) || { echo "build failed"; tail -5 $EXP/build.log; git -C $EXP/repo checkout -q -- .; exit 2; }
 case " $* " in *" C18 "*)
   # C18 needs the AddressSanitizer probe, built against the scratch worktree as well
-  mkdir -p /tmp/exp/root/asan; rsync -a --delete --exclude target --exclude target-miri /verif/asan/ /tmp/exp/root/asan/
-  sed -i 's#path = "/repo"#path = "/tmp/exp/repo"#' /tmp/exp/root/asan/Cargo.toml
-  ln -sfn /tmp/exp/harness /tmp/exp/root/harness
-  (cd /tmp/exp/root/asan && RUSTFLAGS="-Zsanitizer=address" CARGO_NET_OFFLINE=true cargo +nightly build --release --offline --target x86_64-unknown-linux-gnu >/tmp/exp/build_asan.log 2>&1) || { echo "asan build failed"; tail -3 /tmp/exp/build_asan.log; }
+  mkdir -p $EXP/root/asan; rsync -a --delete --exclude target --exclude target-miri /verif/asan/ $EXP/root/asan/
+  sed -i "s#path = \"/repo\"#path = \"$EXP/repo\"#" $EXP/root/asan/Cargo.toml
+  ln -sfn $EXP/harness $EXP/root/harness
+  (cd $EXP/root/asan && RUSTFLAGS="-Zsanitizer=address" CARGO_NET_OFFLINE=true cargo +nightly build --release --offline --target x86_64-unknown-linux-gnu >$EXP/build_asan.log 2>&1) || { echo "asan build failed"; tail -3 $EXP/build_asan.log; }
   ;; esac
 for id in "$@"; do
-  out=$(cd /tmp/exp/root && VERIF_ROOT=/tmp/exp/root RUST_LOG=off timeout 3000 /tmp/exp/harness/target/release/pmh-verif run "$id" "$TIER" 2>/dev/null | grep -E "^(VIOLATION|OK)|reason" | head -2 | tr '\n' ' ' | cut -c1-330)
+  out=$(cd $EXP/root && VERIF_ROOT=$EXP/root RUST_LOG=off timeout 3000 $EXP/harness/target/release/pmh-verif run "$id" "$TIER" 2>/dev/null | grep -E "^(VIOLATION|OK)|reason" | head -2 | tr '\n' ' ' | cut -c1-330)
   echo "  [$id $TIER exp] $out"
 done
-git -C /tmp/exp/repo checkout -q -- .
+git -C $EXP/repo checkout -q -- .
